@@ -43,7 +43,7 @@ static void interface_pass(int maxlen){ cppcms::json::value cfg; cfg["service"][
 			while(!recs.empty()){ delete recs.back(); recs.pop_back(); } }
 		if(d==maxlen) return; for(int op=0;op<NOPS;op++){ prog.push_back(op); rec(d+1); prog.pop_back(); } }; rec(0); }
 
-int main(int argc,char **argv){ vf::init(argc,argv,"C07","model_checking"); bool th=vf::thorough();
+int main(int argc,char **argv){ vf::init(argc,argv,"C07","model_checking"); bool th=vf::thorough(); if(th&&!getenv("VERIF_BUDGET_S")) vf::C().budget_s=2700; /* BFS to fixpoint + 32^5 no-dedup sequences need more than the default 25 minutes */
 	std::vector<cb::Config> cfgs; const char *be[]={"thread_shared","process_shared"}; for(int b=0;b<2;b++) for(unsigned l=0;l<4;l++){ if(!th&&!(l==0||l==2)) continue; cfgs.push_back(config(be[b],l)); } for(int b=0;b<2;b++) cfgs.push_back(config(be[b],b?2:0,true)); /* keys with an embedded NUL and equal hash values */
 	if(!vf::C().replay_file.empty()){ std::ifstream f(vf::C().replay_file); std::stringstream ss; ss<<f.rdbuf(); std::string l=ss.str(); std::string label=vf::jfield(l,"config"); size_t p=l.find("\"history\":["); std::vector<int> h; if(p!=std::string::npos){ size_t e=l.find(']',p); h=vf::parse_choices(l.substr(p+11,e-p-11)); }
 		for(int bin=0;bin<2;bin++) for(unsigned lim=0;lim<4;lim++) for(int b=0;b<2;b++){ cb::Config c=config(be[b],lim,bin!=0); if(c.label!=label) continue; cb::RunResult r=cb::run_history(c,h,true); for(size_t i=0;i<r.trace.size();i++) printf("  %s\n",r.trace[i].c_str()); printf("replay: %s\n",r.ok?"history conforms":r.what.c_str()); if(!r.ok) vf::violation(c.label+":"+r.sig,r.what,"\"config\":"+vf::jstr(label)); } return vf::finish(); }
@@ -57,7 +57,8 @@ int main(int argc,char **argv){ vf::init(argc,argv,"C07","model_checking"); bool
 	vf::run_sub("asan","epoch2039");
 	// no-dedup pass
 	{ std::vector<cb::Config> nc; nc.push_back(config("thread_shared",0)); nc.push_back(config("thread_shared",2)); if(th){ nc.push_back(config("process_shared",0)); nc.push_back(config("thread_shared",1)); }
-	  for(size_t k=0;k<nc.size();k++) vf::parallel(16,16,[&](int sh){ cb::Stats st; for(int d=1;d<=nd;d++){ if(d<nd&&sh!=0&&false) continue; cb::nodedup(nc[k],d,sh,16,st); } vf::C().traces+=st.traces; },th?1400:110); }
+	  /* the deepest level only for the first configuration in the thorough tier (32^5 sequences); the pass stops at the overall budget and says so (exhaustive:false) */
+	  for(size_t k=0;k<nc.size();k++){ int ndk= (th&&k>0)? nd-1 : nd; vf::parallel(16,16,[&](int sh){ cb::Stats st; for(int d=1;d<=ndk;d++) cb::nodedup(nc[k],d,sh,16,st); vf::C().traces+=st.traces; },th?2400:110); } }
 	vf::parallel(1,1,[&](int){ interface_pass(th?5:4); },600);
 	vf::C().extra["bound"]="{\"bfs_max_depth\":"+std::to_string(depth)+",\"nodedup_depth\":"+std::to_string(nd)+",\"configs\":"+std::to_string(cfgs.size())+"}";
 	vf::require_guard("nodedup_sequences"); vf::require_guard("epoch2039_states"); vf::require_guard("interface_hits"); vf::require_guard("recorder_closed"); vf::require_guard("page_with_inherited_triggers_alive");
